@@ -190,7 +190,8 @@ def status(T, x, side='wire'):
         stats = []
         for key, e in x.items():
             if e is None:
-                stats.append(('E', 'null-member'))
+                # driver side: None stands for "left out" (a convenience); a JSON null on the wire is no value of any member type
+                stats.append(('E', 'null-member') if side == 'drv' else ('R', 'null-member'))
             else:
                 stats.append(status(T['members'][key], e, side))
         return combine(stats)
